@@ -195,7 +195,7 @@ class Scan(Generic[Carry, Y], GenerativeFunction[tuple[Carry, Y]]):
     def _static_scan_length(xs: Any, length: int | None) -> int:
         # We start by triggering a scan to force all JAX validations to run.
         jax.lax.scan(lambda c, x: (c, None), None, xs, length=length)
-        return length or jtu.tree_leaves(xs)[0].shape[0]
+        return length if length is not None else jtu.tree_leaves(xs)[0].shape[0]
 
     def simulate(
         self,
